@@ -174,10 +174,9 @@ def _presented(prog, fn, expr, use, ctx=(), depth=0):
     return 'sink argument is not a message parsed from the wrapper: %s' % fn.fmt(expr)[:120]
 
 
-def _inner_sites(prog, fn, depth=0, seen=None):
+def _inner_sites(prog, fn, depth=0, stack=()):
     """call sites in fn that look into the wrapper: lookup of <forwarded/>/<message/>, the inner parse, or a helper that does either"""
     out = []
-    seen = seen if seen is not None else {fn.id}
     for i, n in fn.calls():
         cn = fn.cname(n)
         if cn == 'QXmpp::Private::firstChildElement' and len(n['args']) >= 2 and fn.strval(n['args'][1]) in ('forwarded', 'message'):
@@ -186,10 +185,9 @@ def _inner_sites(prog, fn, depth=0, seen=None):
             out.append((i, 'inner QXmppMessage::parse'))
         elif depth < 2 and not n.get('op') and fn.file.endswith('.cpp'):
             for g in prog.callee_fns(fn, n):
-                if g.id in seen or g.entry is None or g.file != fn.file:
+                if g.id == fn.id or g.id in stack or g.entry is None or g.file != fn.file:
                     continue
-                seen.add(g.id)
-                sub = _inner_sites(prog, g, depth + 1, seen)
+                sub = _inner_sites(prog, g, depth + 1, stack + (fn.id,))
                 if sub:
                     out.append((i, 'helper %s (%s)' % (g.outer_name(), ', '.join(sorted({w for _, w in sub})))))
     return out
